@@ -35,6 +35,7 @@ var ExpectedPkgs = []string{
 type Prog struct {
 	RepoDir string
 	Whole   bool // whole-program SSA (thorough) or repo packages only (quick)
+	SplitReturns int // returns split off single-exit tails by UndoSingleExit
 	Fset    *token.FileSet
 	Pkgs    map[string]*packages.Package // repo packages by import path
 	All     []*packages.Package          // every package loaded (deps too)
@@ -174,6 +175,21 @@ func Load(repoDir string, whole bool, extraEnv ...string) (*Prog, error) {
 		}
 	}
 	sort.Slice(p.Funcs, func(i, j int) bool { return FuncName(p.Funcs[i]) < FuncName(p.Funcs[j]) })
+	// undo "one result variable, one return statement": see normalize.go
+	if os.Getenv("GRPCHANLINT_NO_NORMALIZE") == "" {
+		for _, fn := range p.Funcs {
+			if p.IsLibFile(fn.Pos()) || fn.Parent() != nil {
+				p.SplitReturns += UndoSingleExit(fn)
+			}
+		}
+	}
+	if want := os.Getenv("GRPCHANLINT_DUMPFN"); want != "" {
+		for _, fn := range p.Funcs {
+			if FuncName(fn) == want {
+				fn.WriteTo(os.Stderr)
+			}
+		}
+	}
 	if err := p.checkBuildTags(); err != nil {
 		return nil, err
 	}
